@@ -153,6 +153,9 @@ var smpp5Operations = []struct {
 // layoutIntoHeld: the layout clause on destinations that already hold octets (C12's destination kinds): the octets APPENDED
 // by Marshal must be the same specification layout [want] that a fresh destination receives.
 func layoutIntoHeld(r *Run, t pduType, before interface{}, want []byte, k int) {
+	if stallsExhausted() {
+		return
+	}
 	kind := []string{"buffer", "wrapped", "buffer"}[k%3]
 	held := r.Rng.Bytes([]int{1, 3, 4, 16, 17, 100}[k%6])
 	r.SetReplay(replayValueDest(before, kind, held, 0))
